@@ -327,6 +327,25 @@ pub fn generate(args: &Args, fields: &str, out: &mut Out) {
             let set: &[&str] = match args.get("pset") { Some("lines") => LINE_PIECES, Some("bom") => BOM_PIECES, _ => PIECES };
             enumerate(k, shard, shards, &set[..np.min(set.len())], &mut |c| emit(c, out));
         },
+        "crbounds" => {
+            // numeric character references at every boundary of the value space (C04: none may panic), in every context
+            std::env::set_var("VH_NOTE", "1");
+            let vals: [u64; 30] = [0, 1, 9, 0xA, 0xD, 0x7F, 0x80, 0x9F, 0xA0, 0xD7FF, 0xD800, 0xDBFF, 0xDC00, 0xDFFE, 0xDFFF, 0xE000, 0xFDD0, 0xFDEF, 0xFFFD,
+                                   0xFFFE, 0xFFFF, 0x10000, 0x1FFFE, 0x10FFFF, 0x110000, 0x7FFF_FFFF, 0x8000_0000, 0xFFFF_FFFF, 0x1_0000_0000, 0x1_0000_DFFF];
+            let mut all = Vec::new();
+            for v in vals {
+                for form in [format!("&#x{:X};", v), format!("&#x{:x}", v), format!("&#{};", v), format!("&#{}", v), format!("&#X{:X}z", v), format!("&#0000{};", v)] {
+                    for (pre, post) in [("", ""), ("x", "y"), ("<a b=\"", "\">"), ("<a b=", ">"), ("<a b='", "'>"), ("<title>", "</title>"), ("<textarea>", ""), ("", "<")] {
+                        all.push(mk("Data", &json!([]), false, "std", &format!("{}{}{}", pre, form, post)));
+                    }
+                }
+            }
+            for (i, c) in all.into_iter().enumerate() {
+                if (i as u64) % shards == shard {
+                    emit(c, out);
+                }
+            }
+        },
         "scaled" => {
             // pathological lengths: long runs of one construct
             std::env::set_var("VH_NOTE", "1");
